@@ -350,10 +350,16 @@ class Program:
         look = module_lookup(mi, public)
         orig = dict(mi.functions)
 
+        from .inline import imported_function
+
         def lookup(c):
             f = c.func
             if isinstance(f, ast.Name) and (f.id.startswith('_') or public) and f.id in orig:
                 return orig[f.id], False, f.id
+            if isinstance(f, ast.Name) and f.id.startswith('_'):
+                g = imported_function(self, mi, f.id)       # a private helper imported from a sibling module
+                if g is not None:
+                    return g, False, f.id
             return None
         for name, fn in orig.items():
             if only is not None and name not in only:
